@@ -1,5 +1,6 @@
 import ZbossModel.Proofs.HostTimers
 import ZbossModel.Proofs.HostLoss
+import ZbossModel.Proofs.HostRest
 /-! # C20 - closing or losing the link never strands a caller and is reported once -/
 namespace Zboss.Host
 
@@ -24,7 +25,7 @@ theorem settle_listeners_nil (f : Nat) (s : St) (h : s.listeners = []) : (settle
 theorem C20_close (st : St) (hnr : st.resetting = false) :
     (step st .close).listeners = [] ∧ (step st .close).isOpen = false ∧
     (st.isOpen = true → (step st .close).transport = false ∧ (step st .close).pack = 0) := by
-  simp only [step, hnr, Bool.false_eq_true, if_false]
+  simp only [step, settleAll, hnr, Bool.false_eq_true, if_false]
   refine ⟨?_, ?_, ?_⟩
   · apply settle_listeners_nil
     split <;> rfl
@@ -39,8 +40,8 @@ theorem C20_close (st : St) (hnr : st.resetting = false) :
 /-- every request that had a listener at `close` has its response future cancelled -/
 theorem C20_close_cancels (st : St) (hnr : st.resetting = false) (l : Nat × Nat) (hl : l ∈ st.listeners) (r : Req)
     (hr : r ∈ st.reqs) (hid : r.id = l.1) :
-    ∃ st1, step st .close = settle settleFuel st1 ∧ ∃ r' ∈ st1.reqs, r'.id = r.id ∧ r'.got = .cancelled := by
-  simp only [step, hnr, Bool.false_eq_true, if_false]
+    ∃ st1, step st .close = settle (settleFuel st1) st1 ∧ ∃ r' ∈ st1.reqs, r'.id = r.id ∧ r'.got = .cancelled := by
+  simp only [step, settleAll, hnr, Bool.false_eq_true, if_false]
   have hc : (st.listeners.map (·.1)).contains r.id = true := by
     simp only [List.contains_eq_mem, List.mem_map, decide_eq_true_eq]
     exact ⟨l, hl, hid.symm⟩
@@ -51,7 +52,7 @@ theorem C20_close_cancels (st : St) (hnr : st.resetting = false) (l : Nat × Nat
 /-- **closing again is harmless**: a second close closes nothing and reports nothing but completions -/
 theorem C20_close_idempotent (st : St) (hclosed : st.isOpen = false) :
     Out.closeOut ∉ (step st .close).out ∧ Out.appLost ∉ (step st .close).out := by
-  simp only [step]
+  simp only [step, settleAll]
   split
   · exact ⟨notmem_of_frame (frame_settle _ _) _ rfl (by simp [hclosed]),
       notmem_of_frame (frame_settle _ _) _ rfl (by simp [hclosed])⟩
@@ -62,7 +63,7 @@ theorem C20_close_idempotent (st : St) (hclosed : st.isOpen = false) :
 theorem C20_lost_once (st : St) :
     ((step st .lost).out.filter (· == Out.appLost)).length = (if st.resetting then 0 else 1) ∧
     (step st .lost).isOpen = false := by
-  simp only [step]
+  simp only [step, settleAll]
   refine ⟨?_, by rw [settle_isOpen]; split <;> rfl⟩
   rw [count_of_frame (frame_settle _ _) Out.appLost rfl]
   by_cases hr : st.resetting = true
@@ -77,7 +78,7 @@ theorem C20_no_spurious_report (st : St) (e : Ev) (he : ∀ b, e ≠ .lost ∧ e
   have hne : o ≠ .wack := by rcases ho with h | h <;> subst h <;> simp
   cases e with
   | start id k blocking nfrags timeout =>
-    simp only [step]
+    simp only [step, settleAll]
     split
     · simp
     split
@@ -85,7 +86,7 @@ theorem C20_no_spurious_report (st : St) (e : Ev) (he : ∀ b, e ≠ .lost ∧ e
     · exact notmem_of_frame (frame_settle _ _) o hwd (by simp)
   | rxAck k => simp only [step]; split <;> exact notmem_of_frame (frame_settle _ _) o hwd (by simp)
   | rxRsp k =>
-    simp only [step]
+    simp only [step, settleAll]
     have h1 : o ∉ (if ({ st with out := [] } : St).transport = true then emit { st with out := [] } Out.wack else { st with out := [] }).out := by
       split
       · simp [emit]; exact hne
@@ -99,14 +100,14 @@ theorem C20_no_spurious_report (st : St) (e : Ev) (he : ∀ b, e ≠ .lost ∧ e
       apply notmem_of_frame (frame_settle _ _) o hwd
       split <;> simpa [updReq] using h1
   | tick =>
-    simp only [step]
+    simp only [step, settleAll]
     cases nextDeadline { st with out := [] } with
     | none => simp
     | some d =>
       simp only []
       exact notmem_of_frame ((frame_foldl_unwind _ _ _).trans (frame_settle _ _)) o hwd (by simp)
   | cancel id =>
-    simp only [step]
+    simp only [step, settleAll]
     cases getReq { st with out := [] } id with
     | none => simp
     | some r =>
@@ -154,39 +155,45 @@ theorem C20_close_reaches_every_request (evs : List Ev) (r : Req) (hr : r ∈ (r
   obtain ⟨hist, _, hm⟩ := mreach_run evs
   exact mreach_cov hist _ hm (core r) (List.mem_map.mpr ⟨r, hr, rfl⟩) hp hg
 
-/-- **no caller is stranded - every history**: at any point where the event loop has nothing left to run
-    (`ready = []`), a request that is still running is waiting - directly or through a chain of the three locks - for
+/-- **the event loop comes to rest after every event of every history** (`Proofs/HostRest.lean`: a measure - four times
+    the task steps still possible before the requests block, plus the length of the ready list - drops with every task
+    run, and the fuel `step` gives to `settle` covers it).  Events are taken at quiescent points of the loop: this is
+    the theorem that every reachable state of the model is one. -/
+theorem C20_loop_comes_to_rest (evs : List Ev) : (runEvents {} evs).1.ready = [] := rest_reachable evs
+
+/-- **no caller is stranded - every history**: after any history (the event loop has nothing left to run,
+    `C20_loop_comes_to_rest`), a request that is still running is waiting - directly or through a chain of the three locks - for
     an acknowledgement wait or a response wait that is still pending (both are bounded by timers).  If neither is
     pending, nothing is running.  Rests on two invariants proved for every reachable state: queue integrity (every
     queue entry is a running request that waits for or holds that lock) and no lost wake-up (a running request is
     either on the ready queue or parked behind a lock it does not head, in its ACK wait, or in a pending response
     wait) - `Proofs/HostLive.lean` -/
-theorem C20_no_stranding (evs : List Ev) (hq : (runEvents {} evs).1.ready = [])
+theorem C20_no_stranding (evs : List Ev)
     (hna : ∀ r ∈ (runEvents {} evs).1.reqs, r.phase ≠ .waitAck)
     (hnr : ∀ r ∈ (runEvents {} evs).1.reqs, r.phase = .waitRsp → r.got ≠ .nothing) :
     ∀ r ∈ (runEvents {} evs).1.reqs, r.phase = .done :=
-  drain _ (good_reachable evs).live hq hna hnr
+  drain _ (good_reachable evs).live (rest_reachable evs) hna hnr
 
 /-- **after close only the acknowledgement wait keeps anything alive**: in a shut, quiescent state every request
     has ended unless some request is still in its ACK wait - which lasts at most `ACK_TIMEOUT` -/
-theorem C20_close_drains (evs : List Ev) (hs : Shut (runEvents {} evs).1) (hq : (runEvents {} evs).1.ready = [])
+theorem C20_close_drains (evs : List Ev) (hs : Shut (runEvents {} evs).1)
     (hna : ∀ r ∈ (runEvents {} evs).1.reqs, r.phase ≠ .waitAck) :
     ∀ r ∈ (runEvents {} evs).1.reqs, r.phase = .done :=
-  drain_shut _ (good_reachable evs) hs hq hna
+  drain_shut _ (good_reachable evs) hs (rest_reachable evs) hna
 
 /-- **every request ends within the acknowledgement wait after close - every history**: let the API be closed in any
-    reachable state (no reset in progress) and let the event loop come to rest (`ready = []`).  If some request is
+    reachable state (no reset in progress); the event loop comes to rest (`C20_loop_comes_to_rest`).  If some request is
     still running then exactly one acknowledgement wait is pending; the next timer to fire is that wait's - the clock
     moves to its deadline, which was set to `now + ACK_TIMEOUT` when the frame was written (`C11_write_step`) - and
     once the loop has come to rest again every request has ended.  No request sits out its response timeout. -/
-theorem C20_close_bounded (evs : List Ev) (hnr : (runEvents {} evs).1.resetting = false)
-    (hq1 : (step (runEvents {} evs).1 .close).ready = [])
-    (hq2 : (step (step (runEvents {} evs).1 .close) .tick).ready = []) :
+theorem C20_close_bounded (evs : List Ev) (hnr : (runEvents {} evs).1.resetting = false) :
     (∀ r ∈ (step (step (runEvents {} evs).1 .close) .tick).reqs, r.phase = .done) ∧
     (∀ j ∈ (step (runEvents {} evs).1 .close).reqs, j.phase = .waitAck →
       (step (step (runEvents {} evs).1 .close) .tick).now = max (step (runEvents {} evs).1 .close).now j.deadline) := by
   have hg1 : Good (step (runEvents {} evs).1 .close) := good_step _ _ (good_reachable evs)
   have hs1 : Shut (step (runEvents {} evs).1 .close) := C20_close_shuts _ hnr
+  have hq1 : (step (runEvents {} evs).1 .close).ready = [] := rest_step _ _ (good_reachable evs) (rest_reachable evs)
+  have hq2 : (step (step (runEvents {} evs).1 .close) .tick).ready = [] := rest_step _ _ hg1 hq1
   obtain ⟨hcalm, htime⟩ := calm_after_tick _ hg1 hs1 hq1
   refine ⟨?_, htime⟩
   apply drain_shut _ (good_step _ _ hg1) (shut_step _ _ hs1) hq2
@@ -239,9 +246,8 @@ example : let r := runEvents {} [.start 1 5 true 3 300013, .start 2 1 true 1 500
     timer expiry while a request is running (`tick_progress`, resting on the no-lost-wake-up invariant).  Hence after as
     many timer expiries as the potential counts - at most two per request: one acknowledgement wait, one response wait -
     every request has ended; none waits for anything but its own timers.  (Each expiry is taken at a quiescent point of
-    the event loop, `ready = []` - the granularity of the model.) -/
+    the event loop - and every reachable state is one, `C20_loop_comes_to_rest`.) -/
 theorem C20_loss_requests_end_with_their_timers (evs : List Ev) (n : Nat)
-    (hq : ∀ k, k < n → (ticks k (step (runEvents {} evs).1 .lost)).ready = [])
     (hn : 2 * (step (runEvents {} evs).1 .lost).reqs.length ≤ n) :
     ∀ r ∈ (ticks n (step (runEvents {} evs).1 .lost)).reqs, r.phase = .done := by
   have hg : Good (step (runEvents {} evs).1 .lost) := good_step _ _ (good_reachable evs)
@@ -249,25 +255,25 @@ theorem C20_loss_requests_end_with_their_timers (evs : List Ev) (n : Nat)
     rw [step_eq_pre]
     have h2 : (pre (runEvents {} evs).1 .lost).2 = true := rfl
     rw [h2]
-    show (settle settleFuel (pre (runEvents {} evs).1 .lost).1).isOpen = false
+    show (settle (settleFuel (pre (runEvents {} evs).1 .lost).1) (pre (runEvents {} evs).1 .lost).1).isOpen = false
     rw [(frame_settle _ _).isOpen]
     simp only [pre]
     split <;> rfl
-  exact loss_drains n _ hg hclosed hq (Nat.le_trans (pot_le _) hn)
+  have hq0 : (step (runEvents {} evs).1 .lost).ready = [] := rest_step _ _ (good_reachable evs) (rest_reachable evs)
+  exact loss_drains n _ hg hclosed (fun k _ => rest_ticks k _ hg hq0) (Nat.le_trans (pot_le _) hn)
 
 /-- the same from any reachable state in which the API has no uart (closed, or lost earlier), with the exact count -/
 theorem C20_no_uart_requests_end_with_their_timers (evs : List Ev) (n : Nat)
     (hclosed : (runEvents {} evs).1.isOpen = false)
-    (hq : ∀ k, k < n → (ticks k (runEvents {} evs).1).ready = [])
     (hn : pot (view (runEvents {} evs).1) ≤ n) :
     ∀ r ∈ (ticks n (runEvents {} evs).1).reqs, r.phase = .done :=
-  loss_drains n _ (good_reachable evs) hclosed hq hn
+  loss_drains n _ (good_reachable evs) hclosed (fun k _ => rest_ticks k _ (good_reachable evs) (rest_reachable evs)) hn
 
 /-- every single expiry makes progress -/
 theorem C20_timer_expiry_makes_progress (evs : List Ev) (hclosed : (runEvents {} evs).1.isOpen = false)
-    (hq : (runEvents {} evs).1.ready = []) (hrun : ∃ r ∈ (runEvents {} evs).1.reqs, r.phase ≠ .done) :
+    (hrun : ∃ r ∈ (runEvents {} evs).1.reqs, r.phase ≠ .done) :
     pot (view (step (runEvents {} evs).1 .tick)) < pot (view (runEvents {} evs).1) :=
-  tick_progress _ (good_reachable evs) hclosed hq hrun
+  tick_progress _ (good_reachable evs) hclosed (rest_reachable evs) hrun
 
 /-! ## non-vacuity of `C20_loss_requests_end_with_their_timers`: three requests - request 1 (3 fragments, blocking)
     awaits the ACK of its first fragment, request 2 (blocking) queues behind it, request 3 (2 fragments) waits for the
